@@ -19,6 +19,7 @@
 (*   Unwind        series.py:191-198  except: data.pop(index); re-raise    *)
 (*                 (RuntimeError is re-wrapped as RuntimeError)            *)
 (*   Return / Raise  the two outcomes of the public call                   *)
+(*   Refuse(cls)   an invalid index expression is rejected up front        *)
 (*                                                                         *)
 (* The engine is deliberately permissive about evaluation ORDER (any true  *)
 (* dependency may be fetched next, deletable terms may be deleted at any   *)
@@ -95,6 +96,14 @@ UserRequest(g) ==
   /\ goal' = g /\ exc' = "none" /\ outcome' = "none"
   /\ mode' = "running"
   /\ UNCHANGED <<cache, stack, fetched, evals, faults>>
+
+\* the index expression is refused before anything is looked up
+\* (series.py:169-170 argument checks, numpy's own bounds check)
+Refuse(cls) ==
+  /\ mode = "idle" /\ requests < MaxRequests
+  /\ requests' = requests + 1
+  /\ goal' = NoGoal /\ exc' = cls /\ outcome' = "raised"
+  /\ UNCHANGED <<cache, stack, fetched, mode, evals, faults>>
 
 \* what the running code may look up next: a requested cell at the top level,
 \* a not yet obtained dependency inside an evaluation
